@@ -648,7 +648,10 @@ def accessor_contracts(rep, A):
     M = 1 << A.W
     same = ['_start_post == _start', '_interval_post == _interval']
     if A.signed:
-        check = FnSpec(post=[
+        # the elapsed time is representable in the (signed) time type: curtime - start overflows otherwise, which is undefined
+        # in the signed type (and out of the property's scope: timers are planned within half the range of the clock)
+        half = 1 << (A.W - 1)
+        check = FnSpec(pre=['arg1 - _start >= %d' % -half, 'arg1 - _start <= %d' % (half - 1)], post=[
             dict(name='elapsed>=interval', when=['arg1 - _start >= _interval'], then=['ret == 1'] + same),
             dict(name='elapsed<interval', when=['arg1 - _start < _interval'], then=['ret == 0'] + same)])
         finish = FnSpec(post=[dict(name='sum', then=['ret == _start + _interval'] + same)])
@@ -909,7 +912,16 @@ class Scenarios:
     def nowrap(self, timers, k=3, clock=True):
         """for the unsigned instantiation: neither the deadlines nor the clock wrap in this scenario"""
         if self.A.signed:
-            return []
+            # signed instantiation: the deadlines and the elapsed times are representable (their overflow is undefined in the
+            # signed type); stated explicitly so that a due test written with wrapping arithmetic is decided as well
+            half = 1 << (self.A.W - 1)
+            out = []
+            for t in timers:
+                out += ['%s.start + %d * %s.interval <= %d' % (t, k, t, half - 1), '%s.interval >= 0' % t,
+                        '%s.start >= %d' % (t, -half)]
+                if clock:
+                    out += ['now - %s.start <= %d' % (t, half - 1), 'now - %s.start - %d * %s.interval >= %d' % (t, k, t, -half)]
+            return out
         M = (1 << self.A.W) - 1
         out = ['%s.start + %d * %s.interval <= %d' % (t, k, t, M) for t in timers]
         if clock:
@@ -1087,6 +1099,17 @@ def plan_scenarios(rep, A, maxn):
         S.run(R, A.plan3, 'list(a)+x:plan(tim,start,interval)->position-%d' % k, {'h': ['a']}, ['x'],
               pre + pre2 + [cmpx], ['h', 'x', ('int', 's'), ('int', 'i')], scalars=('s', 'i'),
               rings={'h': ['x', 'a'] if k == 0 else ['a', 'x']}, sorted_after=False,
+              post=['x.start_post == s', 'x.interval_post == i'])
+    # plan(tim, start, interval) on a timer that is ALREADY pending (also with an unchanged interval or an unchanged deadline):
+    # start and interval are stored and the timer moves to the place of its new deadline
+    for k in range(2):
+        before = ['x', 'a'] if k else ['a', 'x']
+        pre = S.nowrap(['a', 'x'], 1, clock=False) + ['%s <= %s' % (fin(before[0]), fin(before[1]))]
+        pre2 = [] if A.signed else ['s + i <= %d' % M]
+        cmpx = '%s <= s + i' % fin('a') if k else 's + i < %s' % fin('a')
+        S.run(R, A.plan3, 'list(%s):replan-x-with-plan(tim,start,interval)->position-%d' % (' '.join(before), k), {'h': before}, [],
+              pre + pre2 + [cmpx], ['h', 'x', ('int', 's'), ('int', 'i')], scalars=('s', 'i'),
+              rings={'h': ['x', 'a'] if k == 0 else ['a', 'x']}, guard_links=True, sorted_after=False,
               post=['x.start_post == s', 'x.interval_post == i'])
     return S.n
 
